@@ -14,8 +14,9 @@ TECHNIQUE = ("Coq proof over the reconcile + environment model: a converged snap
              "histories of the real controller (random interleavings of reconcile, kubelet, cache lag, faults, edits that stop; then a fair suffix) compared with "
              "the environment model per op inside coqc; regularity + round equality and quietb evaluated inside coqc on observed worlds; convergence monitor")
 ASSUMPTIONS = [
-    "PARTIAL: C02_full_model_converges_and_goes_quiet (convergence within mu rounds, then quiet) assumes a regular initial world whose revision list is within "
-    "revisionHistoryLimit; the phase before regularity (chaotic prefix) and longer revision lists are not proved: decided by the monitor on every history, with "
+    "PARTIAL: C02_full_model_converges_and_goes_quiet / C02_full_model_any_history_goes_quiet (convergence within mu rounds, then quiet) assume a REGULAR initial "
+    "world (in sync, nothing to adopt, pods claimed and well-formed, update revision in place; for histories longer than revisionHistoryLimit also: the update "
+    "revision has no numeric hash label, limit >= 0); the phase before regularity (chaotic prefix) is not proved: decided by the monitor on every history, with "
     "round_check / regularb evaluated inside coqc (family C02/round) on worlds at the round boundaries of histories and on synthetic settled worlds; "
     "that a fair history ends in a world satisfying quietb (hypothesis of C02_quiet_world_no_write) is evaluated inside coqc on every final world (family C02/quiet) "
     "and decided on the implementation by the monitor (last two reconciles write nothing), not proved",
